@@ -25,7 +25,24 @@ static uint64_t caseHash(const Alpha& al, const RTA& a, const RTA* b = nullptr)
 static gen::Exhaustive& ex2() { static gen::Exhaustive e(2); return e; }
 static gen::Exhaustive& ex3() { static gen::Exhaustive e(3); return e; }
 
+// --input FILE: the generated automata are replaced by the ones in the file (the PRNG stream of the
+// case is consumed as usual, so the other random choices of the case stay as close as possible)
+static bool overrideInput(Alpha& al, RTA& a, RTA* b)
+{
+	if (R->inputFile.empty()) return false;
+	Alpha ial; std::vector<RTA> auts; int n = parseCaseText(slurpFile(R->inputFile), ial, auts);
+	if (n < 1) { fprintf(stderr, "cannot parse --input file\n"); exit(2); }
+	al = ial; a = auts[0]; if (b) { if (n < 2) { fprintf(stderr, "--input needs two automata\n"); exit(2); } *b = auts[1]; }
+	return true;
+}
+
+static void genSingleRaw(uint64_t idx, vh::Rng& g, Alpha& al, RTA& a, std::string& kind, int S, int Rn);
 static void genSingle(uint64_t idx, vh::Rng& g, Alpha& al, RTA& a, std::string& kind, int S, int Rn)
+{
+	genSingleRaw(idx, g, al, a, kind, S, Rn);
+	if (overrideInput(al, a, nullptr)) kind = "input-file";
+}
+static void genSingleRaw(uint64_t idx, vh::Rng& g, Alpha& al, RTA& a, std::string& kind, int S, int Rn)
 {
 	uint64_t nEx = static_cast<uint64_t>(R->param("exhaustive", ex2().size()));
 	if (idx < nEx)
@@ -164,6 +181,7 @@ static void caseC15(uint64_t idx, vh::Rng& g)
 		if (g.chance(1, 2)) { RRule r; r.sym = 1; r.ch = {static_cast<St>(d + 7)}; r.par = d + 5; a.rules.insert(r); }
 	}
 	else genSingle(idx, g, al, a, kind, 6, 12);
+	if (overrideInput(al, a, nullptr)) kind = "input-file";
 	CaseAlphabet ca(al); Aut A = mkExpl(a, ca); maybeDerive(g, A, a, ca, kind);
 	R->desc(caseText(al, a)); R->count("gen:" + kind);
 	int rounds = g.chance(1, 4) ? 3 : 1;
@@ -223,7 +241,7 @@ static void caseC05(uint64_t idx, vh::Rng& g)
 {
 	Alpha al; RTA a; std::string kind; genSingle(idx, g, al, a, kind, 7, 14);
 	// half of the G1 cases get sparse numbers too
-	if (g.chance(1, 2))
+	if (g.chance(1, 2) && R->inputFile.empty())
 	{
 		std::map<St, St> m; std::vector<St> tgt = numbering(g, static_cast<int>(a.states().size()), 1 + static_cast<int>(g.below(2))); size_t i = 0;
 		for (St s : a.states()) m[s] = tgt[i++];
@@ -278,6 +296,7 @@ static void caseC06(uint64_t idx, vh::Rng& g)
 			for (size_t s = 0; s < al.rank.size(); ++s) { RRule r; r.sym = static_cast<int>(s); r.ch.assign(al.rank[s], 0); r.par = 0; a.rules.insert(r); }
 		}
 	}
+	if (overrideInput(al, a, nullptr)) kind = "input-file";
 	CaseAlphabet ca(al); Aut A = mkExpl(a, ca); maybeDerive(g, A, a, ca, kind);
 	R->desc(caseText(al, a)); R->count("gen:" + kind);
 	int rounds = g.chance(1, 4) ? 2 : 1;   // a quarter of the cases: the same object again after in-place modification
@@ -385,6 +404,7 @@ static void caseC02(uint64_t idx, vh::Rng& g)
 		a = exPair.get(k % n); b = exPair.get(k / n);
 	}
 	else gen::genPair(g, 5, 9, al, a, b, kind);
+	if (overrideInput(al, a, &b)) kind = "input-file";
 	CaseAlphabet ca(al); Aut A = mkExpl(a, ca), B = mkExpl(b, ca); maybeDerive(g, A, a, ca, kind); maybeDerive(g, B, b, ca, kind);
 	R->desc(caseText(al, a, &b)); R->count("gen:" + kind);
 	int rounds = g.chance(1, 5) ? 2 : 1;   // a fifth of the cases: the same operand objects again after one was modified in place
